@@ -296,12 +296,12 @@ class Ctx:
         p = self.write_replay("nofail" if nofail else "viol", obj)
         self.violations.append((what, p, nofail))
 
-    def known_key_of(self, suite, case):
-        """KnownClass of a case, computed by the extracted Coq predicate <suite>.known (0 = none)."""
+    def known_key_of(self, suite, case, observed):
+        """KnownClass of a (case, observed result), computed by the extracted Coq predicate (0 = none)."""
         ks = getattr(self.mod, "KNOWN_SUITE", {}).get(suite)
         if not ks:
             return 0
-        r = run_model(["%s %s" % (ks, case)])[0]
+        r = run_checker(ks, [case], [observed])[0]
         try:
             return int(r)
         except ValueError:
@@ -390,7 +390,7 @@ def evaluate_stream(ctx, st):
     # property predicate fails on the implementation's own output -> violation (or a listed finding)
     seen_keys = set()
     for c, i, m in fails[:40]:
-        key = ctx.known_key_of(st.suite, c)
+        key = ctx.known_key_of(st.suite, c, i)
         kf = next((k for k in ctx.known if k.get("class_id") == key and k["status"] == "known"), None) if key else None
         if kf:
             ctx.known_hits[kf["key"]] = kf["what"]
@@ -404,7 +404,7 @@ def evaluate_stream(ctx, st):
             if o == BAD:
                 return False
             v = run_checker(chk, [cand], [o])[0]
-            return v == "0" and not ctx.known_key_of(suite, cand)
+            return v == "0" and not ctx.known_key_of(suite, cand, o)
         small = shrink(c, still)
         o = run_impl(["%s %s" % (st.suite, small)])[0]
         mo = resolve_needs(["%s %s" % (st.suite, small)])[0][0]
